@@ -721,7 +721,16 @@ def build_unit(unit, outdir, ghost_override=None, variant=None):
                         i0 = [k for k, l in enumerate(wl) if l.strip() == ftxt][nn - 1]
                     else:
                         i0 = next(k for k, l in enumerate(wl) if l.strip() == first)
-                    if last == "block":
+                    if last.startswith("block:"):
+                        # structural end: the line that closes the brace block opened on the (first) line with that text at or after the start
+                        bl = next(k for k, l in enumerate(wl) if k >= i0 and l.strip() == last[6:].strip())
+                        off = sum(len(l) + 1 for l in wl[:bl])
+                        mskw = rustlex.mask(whole)
+                        ob = mskw.rfind("{", off, off + len(wl[bl]) + 1)
+                        if ob < 0:
+                            raise StopIteration
+                        i1 = whole.count("\n", 0, rustlex.match_brace(mskw, ob)) + more
+                    elif last == "block":
                         # structural end: the line that closes the brace block opened on the first line
                         off = sum(len(l) + 1 for l in wl[:i0])
                         mskw = rustlex.mask(whole)
